@@ -519,15 +519,20 @@ func checkC06Signed(r *Report, p *Prog) {
 		fc := a.Ctx(fn)
 		fc.ensureConds()
 		ok := false
-		for _, c := range methodCallsOn(fn, "(*"+etreePath+".Element).AddChild") {
-			ap := fc.AP(c.Call.Args[1])
+		rgE := NewRegion(p, fn, 2) // the builder with the helpers it shares with the other builders
+		for _, x := range rgE.Calls("(*" + etreePath + ".Element).AddChild") {
+			c := x.I.(*ssa.Call)
+			xfc := rgE.Ctx(a, x.C)
+			xfc.ensureConds()
+			ap := xfc.AP(c.Call.Args[1])
 			if strings.HasSuffix(ap, tn+".Signature") {
 				nm := "isnil(" + ap + ")"
-				if B.HasVar(nm) && fc.Implied(c.Block(), B.Not(B.Var(nm))) {
+				if B.HasVar(nm) && B.Implies(xfc.AbsCond(c.Block()), B.Not(B.Var(nm))) {
 					ok = true
 				}
 			}
 		}
+		_ = fc
 		r.Check(ok, rule, p.FnName(fn)+": re-embeds the stored Signature when present", p.Pos(fn.Pos()), "AddChild(Signature) under Signature != nil", "the builder does not add the stored Signature element: the rebuilt tree is unsigned")
 	}
 }
